@@ -4,8 +4,11 @@ go 1.25
 
 require (
 	git.torproject.org/pluggable-transports/snowflake.git/v2 v2.0.0
+	github.com/gorilla/websocket v1.4.1
 	github.com/pion/sdp/v3 v3.0.5
 	github.com/pion/webrtc/v3 v3.1.41
+	github.com/xtaci/kcp-go/v5 v5.6.1
+	github.com/xtaci/smux v1.5.15
 	golang.org/x/net v0.0.0-20220425223048-2871e0cb64e4
 	pgregory.net/rapid v1.3.0
 	verif.local/vstat v0.0.0
@@ -14,6 +17,8 @@ require (
 require (
 	github.com/clarkduvall/hyperloglog v0.0.0-20171127014514-a0107a5d8004 // indirect
 	github.com/google/uuid v1.3.0 // indirect
+	github.com/klauspost/cpuid v1.3.1 // indirect
+	github.com/klauspost/reedsolomon v1.9.9 // indirect
 	github.com/pion/datachannel v1.5.2 // indirect
 	github.com/pion/dtls/v2 v2.1.5 // indirect
 	github.com/pion/ice/v2 v2.2.6 // indirect
@@ -29,6 +34,10 @@ require (
 	github.com/pion/transport v0.13.0 // indirect
 	github.com/pion/turn/v2 v2.0.8 // indirect
 	github.com/pion/udp v0.1.1 // indirect
+	github.com/pkg/errors v0.9.1 // indirect
+	github.com/templexxx/cpu v0.0.7 // indirect
+	github.com/templexxx/xorsimd v0.4.1 // indirect
+	github.com/tjfoc/gmsm v1.3.2 // indirect
 	golang.org/x/crypto v0.0.0-20220516162934-403b01795ae8 // indirect
 	golang.org/x/sys v0.0.0-20211216021012-1d35b9e2eb4e // indirect
 	golang.org/x/text v0.3.7 // indirect
